@@ -133,8 +133,8 @@ inductive Err where
   | assertion
   /-- `AttributeError`: `addPoint`/`endPath` while `self._contour is None` -/
   | noContour
-  /-- the loading pen's conflict branch raises `DefconError`, a name that module never imports -/
-  | nameError
+  /-- the loading pen's conflict branch: `DefconError` -/
+  | defconError
   | indexError
   /-- fontTools `PenError` -/
   | penError
@@ -259,13 +259,22 @@ def runCore (skip : Bool) : List (Ev R) → PenSt R → Except Err (PenSt R)
     let s' ← stepCore skip s e
     runCore skip es s'
 
-/-- `_fullyLoadShallowLoadedContours`: replay the stored tuples through a fresh `GlyphObjectPointPen`
-(`skipConflictingIdentifiers = False`) after resetting `_shallowLoadedContours` to `None` -/
+/-- `identifiers.remove(x)` / `identifiers.discard(x)` for each given identifier -/
+def releaseAll (ids : List Ident) (xs : List Ident) : List Ident := xs.foldl (fun l x => l.erase x) ids
+
+/-- the identifiers the shallow-loaded contours carry (and, since the loading pen reserves them, hold in
+the glyph's registry) -/
+def rawIdents (raws : List (RawContour R)) : List Ident :=
+  raws.flatMap fun c => c.identifier.toList ++ c.points.filterMap (·.identifier)
+
+/-- `_fullyLoadShallowLoadedContours`: reset `_shallowLoadedContours` to `None`, discard the identifiers
+the shallow contours had reserved (they are handed over to the objects), then replay the stored tuples
+through a fresh `GlyphObjectPointPen` (`skipConflictingIdentifiers = False`) -/
 def deepen (g : Glyph R) : Except Err (Glyph R) :=
   match g.shallow with
   | none => .ok g
   | some raws => do
-    let s ← runCore false (drawRaw raws) ⟨{ g with shallow := none }, none⟩
+    let s ← runCore false (drawRaw raws) ⟨{ g with shallow := none, ids := releaseAll g.ids (rawIdents raws) }, none⟩
     .ok s.g
 
 /-- one call on a `GlyphObjectPointPen`; `endPath` → `appendContour` → `len(self)` deepens first -/
@@ -307,7 +316,7 @@ def deepenKeep (g : Glyph R) : Glyph R × Option Err :=
   match g.shallow with
   | none => (g, none)
   | some raws =>
-    let r := runCoreKeep false (drawRaw raws) ⟨{ g with shallow := none }, none⟩
+    let r := runCoreKeep false (drawRaw raws) ⟨{ g with shallow := none, ids := releaseAll g.ids (rawIdents raws) }, none⟩
     (r.1.g, r.2)
 
 def stepKeep (skip : Bool) (s : PenSt R) : Ev R → PenSt R × Option Err
@@ -334,7 +343,10 @@ def buildKeep (skip : Bool) (evs : List (Ev R)) (g : Glyph R) : Glyph R × Optio
   let r := runKeep skip evs ⟨g, none⟩
   (r.1.g, r.2)
 
-/-! ## `GlyphObjectLoadingPointPen` (what `Layer.loadGlyph` hands to glifLib) -/
+/-! ## `GlyphObjectLoadingPointPen` (what `Layer.loadGlyph` hands to glifLib)
+
+The pen stores raw tuples and RESERVES the identifiers it stores in the glyph's registry (a conflict
+raises `DefconError`); `deepen` hands them over. -/
 
 def appendRawPoint : List (RawContour R) → RawPoint R → Option (List (RawContour R))
   | [], _ => none
@@ -344,15 +356,15 @@ def appendRawPoint : List (RawContour R) → RawPoint R → Option (List (RawCon
 def loadStep (g : Glyph R) : Ev R → Except Err (Glyph R)
   | .beginPath i =>
     match i with
-    | some x => if x ∈ g.ids then .error .nameError
-                else .ok { g with shallow := some (g.shallow.getD [] ++ [⟨some x, []⟩]) }
+    | some x => if x ∈ g.ids then .error .defconError
+                else .ok { g with shallow := some (g.shallow.getD [] ++ [⟨some x, []⟩]), ids := g.ids ++ [x] }
     | none => .ok { g with shallow := some (g.shallow.getD [] ++ [⟨none, []⟩]) }
   | .addPoint p =>
     match p.ident with
-    | some x => if x ∈ g.ids then .error .nameError
+    | some x => if x ∈ g.ids then .error .defconError
                 else match appendRawPoint (g.shallow.getD []) ⟨(p.x, p.y), p.seg, p.smooth, p.name, some x⟩ with
                   | none => .error .indexError
-                  | some r => .ok { g with shallow := some r }
+                  | some r => .ok { g with shallow := some r, ids := g.ids ++ [x] }
     | none => match appendRawPoint (g.shallow.getD []) ⟨(p.x, p.y), p.seg, p.smooth, p.name, none⟩ with
                   | none => .error .indexError
                   | some r => .ok { g with shallow := some r }
@@ -387,9 +399,6 @@ def claimAll : List Ident → List (Option Ident) → Except Err (List Ident)
   | ids, i :: r => do
     let ids' ← claim ids i
     claimAll ids' r
-
-/-- `identifiers.remove(x)` for each given identifier -/
-def releaseAll (ids : List Ident) (xs : List Ident) : List Ident := xs.foldl (fun l x => l.erase x) ids
 
 /-- The content of a glyph before it becomes a defcon object (what the harness generates / a GLIF holds). -/
 structure Content (R : Type) where
